@@ -264,7 +264,7 @@ func TestEnforceAttack(t *testing.T) {
 		wait = 250 * time.Millisecond
 	}
 	trace := 0
-	overtook := 0
+	overtook, noUpdate := 0, 0
 	for _, strat := range []string{"simple", "precise", "lookup"} {
 		for rep := 0; rep < 3; rep++ {
 			sl := &ScriptedLimit{est: 6, script: []int{4 + rep, 9, 2}}
@@ -311,19 +311,23 @@ func TestEnforceAttack(t *testing.T) {
 			go func() { cycle(12); close(doneA) }()
 			select {
 			case <-gs.parked:
-			case <-time.After(2 * time.Second):
-				t.Fatalf("%s: no window was closed", strat)
+				doneB := make(chan struct{})
+				go func() { cycle(14); close(doneB) }()
+				select {
+				case <-doneB:
+					overtook++
+				case <-time.After(wait):
+				}
+				close(gs.resume)
+				<-doneA
+				<-doneB
+			case <-doneA:
+				// the twelve completions never reached strategy.SetLimit (nothing to race with): what is enforced once quiet is
+				// judged all the same
+				noUpdate++
+			case <-time.After(5 * time.Second):
+				t.Fatalf("%s: the first cycle neither finished nor reached SetLimit", strat)
 			}
-			doneB := make(chan struct{})
-			go func() { cycle(14); close(doneB) }()
-			select {
-			case <-doneB:
-				overtook++
-			case <-time.After(wait):
-			}
-			close(gs.resume)
-			<-doneA
-			<-doneB
 			bl := J{}
 			if psut != nil {
 				bl["p0"] = psut.objLimit("p0")
@@ -332,5 +336,5 @@ func TestEnforceAttack(t *testing.T) {
 			trace++
 		}
 	}
-	writeJSON(t, filepath.Join(outDir(t), "enforce.json"), J{"scenarios": trace, "second_update_overtook_the_parked_one": overtook})
+	writeJSON(t, filepath.Join(outDir(t), "enforce.json"), J{"scenarios": trace, "second_update_overtook_the_parked_one": overtook, "no_update_reached_the_strategy": noUpdate})
 }
